@@ -277,3 +277,18 @@ Proof.
   intros fin b r H. unfold fea_remapped. destruct (fnb_build b); [|reflexivity].
   rewrite H. reflexivity.
 Qed.
+
+(* ------------------------------------------------------------------------- *)
+(* every feature record, not only the first of its tag                         *)
+
+Lemma adjust_sentinel : forall off, adjust_id off 0xFFFF = 0xFFFF.
+Proof. intro off. unfold adjust_id. reflexivity. Qed.
+
+(* a record's ids are looked up in its tag's ids: remapping the tag's ids and then
+   reading the record = reading the record and remapping every id it holds *)
+Lemma record_ids_remap : forall off refs pos,
+  record_ids (map (adjust_id off) refs) pos = map (adjust_id off) (record_ids refs pos).
+Proof.
+  intros off refs pos. unfold record_ids. rewrite map_map. apply map_ext. intro p.
+  rewrite <- (adjust_sentinel off) at 1. apply map_nth.
+Qed.
